@@ -58,6 +58,9 @@ type Term struct {
 	Name string
 	Args []*Term
 	ID   int
+
+	kbDone     bool   // known-bits cache (bit-vector terms): bits known to be 0 / known to be 1
+	kb0, kb1   uint64
 }
 
 var (
@@ -189,6 +192,13 @@ func Eq(a, b *Term) *Term {
 			return Not(a)
 		}
 	}
+	if a.W > 0 {
+		az, ao := a.KnownBits()
+		bz, bo := b.KnownBits()
+		if az&bo != 0 || ao&bz != 0 {
+			return False // some bit is known 0 on one side and known 1 on the other
+		}
+	}
 	if a.ID > b.ID {
 		a, b = b, a
 	}
@@ -235,7 +245,89 @@ func cmp(op Op, a, b *Term) *Term {
 	if a == b {
 		return Bool(op == OpUle || op == OpSle)
 	}
+	if op == OpUlt || op == OpUle {
+		// decide by unsigned ranges derived from known bits (e.g. (x | 0x80) >= 0x80, (x & 0x7f) < 0x80)
+		amin, amax := a.URange()
+		bmin, bmax := b.URange()
+		switch op {
+		case OpUlt:
+			if amax < bmin {
+				return True
+			}
+			if amin >= bmax {
+				return False
+			}
+		case OpUle:
+			if amax <= bmin {
+				return True
+			}
+			if amin > bmax {
+				return False
+			}
+		}
+	}
 	return mk(op, 0, 0, "", a, b)
+}
+
+// KnownBits returns the masks of bits that are 0 and that are 1 in every value of the bit-vector term
+// (a sound under-approximation computed structurally; cached).
+func (t *Term) KnownBits() (zeros, ones uint64) {
+	if t.W == 0 {
+		return 0, 0
+	}
+	if t.kbDone {
+		return t.kb0, t.kb1
+	}
+	m := mask(t.W)
+	var z, o uint64
+	switch t.Op {
+	case OpConst:
+		z, o = ^t.Val&m, t.Val
+	case OpBAnd:
+		az, ao := t.Args[0].KnownBits()
+		bz, bo := t.Args[1].KnownBits()
+		z, o = az|bz, ao&bo
+	case OpBOr:
+		az, ao := t.Args[0].KnownBits()
+		bz, bo := t.Args[1].KnownBits()
+		z, o = az&bz, ao|bo
+	case OpBXor:
+		az, ao := t.Args[0].KnownBits()
+		bz, bo := t.Args[1].KnownBits()
+		z, o = (az&bz)|(ao&bo), (az&bo)|(ao&bz)
+	case OpBNot:
+		az, ao := t.Args[0].KnownBits()
+		z, o = ao, az
+	case OpIte:
+		az, ao := t.Args[1].KnownBits()
+		bz, bo := t.Args[2].KnownBits()
+		z, o = az&bz, ao&bo
+	case OpZExt:
+		az, ao := t.Args[0].KnownBits()
+		z, o = az|(m&^mask(t.Args[0].W)), ao
+	case OpExtract:
+		az, ao := t.Args[0].KnownBits()
+		z, o = az&m, ao&m
+	case OpShl:
+		if c := t.Args[1]; c.IsConst() && c.Val < uint64(t.W) {
+			az, ao := t.Args[0].KnownBits()
+			z, o = (az<<c.Val)|mask(int(c.Val)), ao<<c.Val
+		}
+	case OpLShr:
+		if c := t.Args[1]; c.IsConst() && c.Val < uint64(t.W) {
+			az, ao := t.Args[0].KnownBits()
+			z, o = (az>>c.Val)|(m&^(m>>c.Val)), ao>>c.Val
+		}
+	}
+	t.kb0, t.kb1 = z&m, o&m
+	t.kbDone = true
+	return t.kb0, t.kb1
+}
+
+// URange is the unsigned interval implied by the known bits.
+func (t *Term) URange() (min, max uint64) {
+	z, o := t.KnownBits()
+	return o, mask(t.W) &^ z
 }
 
 func Ult(a, b *Term) *Term { return cmp(OpUlt, a, b) }
